@@ -289,6 +289,10 @@ def run(chk):
     if key not in seen_allowed:
       chk.info('allow-listed site %s / %s no longer present' % key)
 
+  # redundant parentheses around a group of conjuncts disappear only because
+  # every rule body goes through the DNF rewrite (it flattens nested groups)
+  from rules.c01 import every_body_normalised
+  every_body_normalised(chk, 'C15-R1')
   chk.rule('C15-R2', 'span arithmetic: slices of program text that escape '
            'have a non-negative lower bound and no step; HeritageAwareString '
            'computes spans by plain addition relative to its own start',
